@@ -332,6 +332,9 @@ def stop_thresholds(n, rho, r0, kind, dr_min, dr_max, nswp, tseed, yseed, cache)
         return FAIL(f"reference run: stop {iref['stop']}, {len(traj)} sweeps")
     _, i0, _, _ = _run(T, Y0, cache, nswp=0, **base)
     evld0 = i0['e_vld']
+    rep = [evld0] + [t[key] for t in traj for key in ('e', 'e_vld')]
+    if not all(np.isfinite(v) for v in rep):
+        return FAIL(f'non-finite reported e / e_vld (the thresholds around them cannot be placed): {rep}')
     up, dn = 1 + 1e-9, 1 - 1e-9
     settings = []
     for t in traj:
@@ -376,6 +379,9 @@ def priority(n, rho, r0, kind, dr_min, dr_max, nswp, tseed, yseed):
     _, iref, _, traj = _run(T, Y0, True, nswp=nswp, m_cache_scale=HUGE, **base)
     _, i0, _, _ = _run(T, Y0, True, nswp=0, m_cache_scale=HUGE, **base)
     evld0 = i0['e_vld']
+    rep = [evld0] + [t[key] for t in traj for key in ('e', 'e_vld')]
+    if not all(np.isfinite(v) for v in rep):
+        return FAIL(f'non-finite reported e / e_vld (the criteria cannot be placed): {rep}')
     done = 0
     for s in range(1, nswp + 1):
         t = traj[s - 1]
